@@ -1,14 +1,15 @@
 #!/bin/sh
-# seedverify.sh <ID>: in /tmp/seed/<ID>/repo run meta.demo_cmd with the patch (must fail) and without it (must pass)
+# seedverify.sh <ID>: in /tmp/seed/<ID>/repo run meta.demo_cmd with the patch (must fail) and without it (must pass).
+# (no git stash: refs/stash is shared by all worktrees of a repository and concurrent users swap each other's changes)
 ID=$1
 export GOPROXY=off GOSUMDB=off GOTOOLCHAIN=local
 cd /tmp/seed/$ID/repo || exit 3
 CMD=$(python3 -c "import json;print(json.load(open('/tmp/seed/$ID/meta.json'))['demo_cmd'])")
 echo "demo_cmd: $CMD"
-git diff --quiet && git apply /tmp/seed/$ID/patch.diff
+git checkout -q -- . && git apply /tmp/seed/$ID/patch.diff || exit 3
 sh -c "$CMD" >/tmp/seed/$ID/with.log 2>&1; W=$?
-git stash -q
+git apply -R /tmp/seed/$ID/patch.diff || exit 3
 sh -c "$CMD" >/tmp/seed/$ID/without.log 2>&1; WO=$?
-git stash pop -q
+git apply /tmp/seed/$ID/patch.diff
 echo "with patch rc=$W (want !=0); without rc=$WO (want 0)"
 tail -3 /tmp/seed/$ID/with.log
